@@ -326,7 +326,8 @@ CHECKS = {
         "level_note": "the old-file reader never returns short reads (bytes.Reader / os.File), like the readers the overlay bowl uses.",
         "rule": ("rapid draws (entropy, runs, cuts, slices, actions). Non-trivial: the overlay contains >=1 SKIP and >=1 FRESH and the run had a "
                  "flush or a session break. Distinct: SHA-1 of the spec."),
-        "assumptions": ["at most 24 sessions per case (each allocates two 128KiB buffers)"],
+        "assumptions": ["at most 24 sessions per case (each allocates two 128KiB buffers)",
+                        "bowl stage, a quarter of the cases: the old file on disk is longer than the old build's container says (appended to after install); the overlay is computed against and applied to what is on disk"],
         "required_classes": {"quick": ["op:skip", "op:fresh", "sessions:>1", "flush:some", "entropy:periodic", "new:shorter", "new:longer", "bowl:session-wrote-after-the-checkpoint-it-is-resumed-from"],
                              "thorough": ["op:skip", "op:fresh", "sessions:>1", "flush:some", "entropy:periodic", "entropy:constant", "new:shorter", "new:longer", "new:empty"]},
         "stages": [rapid("overlay", "TestProp", 16000, 400000, qs=16, ts=16, qt=600, tt=5400),
@@ -388,7 +389,8 @@ CHECKS = {
         "technique": "rapid property-based testing: repeated runs under generated schedule perturbation compared byte for byte; the same harness under the Go race detector",
         "level_text": ("Generated build pairs (incl. files sharing blocks and a 'tie' shape: a new file made of two equally large old files) x "
                        "compression. Per case 4 runs of WritePatch with GOMAXPROCS in {1,2,3,16}, a source pool whose readers return generated "
-                       "short reads and yield/sleep at generated points, and yielding patch/signature writers; then two diffs (the pair and the reversed pair) running concurrently in the same process, each compared "
+                       "short reads and yield/sleep at generated points, and yielding patch/signature writers; in a third of the cases a diff of the same pair is cancelled after the reference run while one of its source reads is stalled, and the stalled read is released while the "
+                       "next measured run is writing (a diff that was given up must not influence later ones); then two diffs (the pair and the reversed pair) running concurrently in the same process, each compared "
                        "with its solo bytes, then 3 runs of Optimize with identical parameters. The source pool's readers also return their last "
                        "bytes together with io.EOF in half of the cases. Oracles: byte equality of patch, signature and optimized output across runs; a -race build of the "
                        "same harness must report nothing (GORACE=halt_on_error so the journalled case is the one that raced)."),
